@@ -811,11 +811,26 @@ pub fn validate_abnf(abnf: &str, target: &str) -> Result<(), String> {
     let pairs = pest_meta::parser::parse(pest_meta::parser::Rule::grammar_rules, &pest)
       .map_err(|e| e.to_string())?;
 
-    let ast = pest_meta::parser::consume_rules(pairs).unwrap();
+    // A grammar that refers to a rule it does not define, or that is left
+    // recursive, makes pest_vm panic (or never return) while matching, so it is
+    // reported as an error instead.
+    let describe = |errors: Vec<pest::error::Error<pest_meta::parser::Rule>>| {
+      errors
+        .iter()
+        .map(|e| e.to_string())
+        .collect::<Vec<_>>()
+        .join("; ")
+    };
+    pest_meta::validator::validate_pairs(pairs.clone()).map_err(describe)?;
+    let ast = pest_meta::parser::consume_rules(pairs).map_err(describe)?;
+
+    let rule = rule.replace('-', "_");
+    if !ast.iter().any(|r| r.name == rule) {
+      return Err(format!("ABNF rule {} is not defined", rule));
+    }
 
     let vm = pest_vm::Vm::new(pest_meta::optimizer::optimize(ast));
 
-    let rule = rule.replace('-', "_");
     let _ = vm.parse(&rule, target).map_err(|e| e.to_string())?;
   }
 
